@@ -113,11 +113,14 @@ pub fn weights_for(prop: &str) -> [u32; 19] {
         "C09" => {
             w[O_ITER] = 30;
             w[O_ADAPT] = 20;
+            // "every reachable container state": states reached through the unsafe fast path inside its contract too
+            w[O_UNCHECKED] = 6;
         }
         "C10" => {
             w[O_DRAIN] = 16;
             w[O_CONSUME] = 16;
             w[O_ADAPT] = 16;
+            w[O_UNCHECKED] = 3;
         }
         "C12" => {
             w[O_REBUILD] = 6;
@@ -126,7 +129,10 @@ pub fn weights_for(prop: &str) -> [u32; 19] {
             w[O_ENTRY] = 10;
             w[O_REMOVE_ENTRY] = 8;
         }
-        "C15" => w[O_FORK] = 14,
+        "C15" => {
+            w[O_FORK] = 14;
+            w[O_UNCHECKED] = 3;
+        }
         "C18" => {
             // every plain insert becomes insert_unchecked (called only inside its contract)
             w[O_UNCHECKED] = 24;
@@ -134,7 +140,10 @@ pub fn weights_for(prop: &str) -> [u32; 19] {
             w[O_FMT] = 0;
             w[O_FORK] = 1;
         }
-        "C19" => w[O_FMT] = 30,
+        "C19" => {
+            w[O_FMT] = 30;
+            w[O_UNCHECKED] = 3;
+        }
         _ => {}
     }
     w
@@ -391,6 +400,15 @@ impl<'a> Engine<'a> {
         if alive > want && self.h.fault_leak {
             return; // elements leaked by an injected user panic: tolerated
         }
+        if alive > want && self.cx.prop == "C10" {
+            // C10's own mechanism ("Drain::drop destroys the rest", "remaining slots are dropped by the wrapped
+            // Map's Drop"): an entry the consuming iterator / drain neither yielded nor destroyed is still around
+            // after the iterator is gone, so the container was not emptied of it
+            let (_, _, op) = ledger::ctx();
+            if matches!(op, "drain" | "consume" | "adaptor" | "rebuild") {
+                self.h.viol("C10", "neither-yielded-nor-destroyed", format!("{}: {} instrumented objects outlive a consuming iterator / drain that was dropped (not forgotten) without yielding them", whr, alive - want));
+            }
+        }
         if alive != want {
             let what = if alive > want { "leak" } else { "destroyed-too-many" };
             let ids = ledger::alive_ids();
@@ -452,6 +470,14 @@ impl<'a> Engine<'a> {
     // -----------------------------------------------------------------------------------------
     // full observation sweep
 
+    /// In a C09 run the full-traversal of the per-step sweep is itself an observation of a borrowing
+    /// iterator ("yields every stored entry exactly once and nothing else", stored = what the history
+    /// of calls left in the map): divergences are reported for C09 as well.
+    fn iter9(&mut self, what: &str, msg: String) {
+        if self.cx.prop == "C09" {
+            self.h.viol("C09", &format!("sweep-iter:{}", what), msg);
+        }
+    }
     pub fn sweep<F: Fam, const N: usize>(&mut self, s: &mut Sut<F, N>) {
         if !s.fr.canaries_ok() {
             self.h.viol("MEM", "canary", "memory outside the container was overwritten (canary damaged)".into());
@@ -493,14 +519,19 @@ impl<'a> Engine<'a> {
             let class = k.class();
             if seen.iter().any(|x| x.0 == class) {
                 self.h.viol("C05", "duplicate-key", format!("iteration yields two keys of class {}", class));
+                self.iter9("entry-twice", format!("iter() yields two entries with key class {} although the history stored one", class));
                 continue;
             }
             seen.push((class, va, v.id()));
             match s.model.get(class) {
-                None => self.h.viol("C01", "phantom-key", format!("iteration yields key class {} which the model does not hold", class)),
+                None => {
+                    self.h.viol("C01", "phantom-key", format!("iteration yields key class {} which the model does not hold", class));
+                    self.iter9("not-stored", format!("iter() yields key class {} which no operation of the history left stored", class));
+                }
                 Some(e) => {
                     if v.payload() != e.payload {
                         self.h.viol("C01", "value", format!("class {}: stored value {} but the model says {}", class, v.payload(), e.payload));
+                        self.iter9("value", format!("iter() yields value {} for class {}; the history left {} stored", v.payload(), class, e.payload));
                     }
                     if F::IDENT {
                         if k.tag() != e.tag || k.id() != e.kid {
@@ -519,9 +550,13 @@ impl<'a> Engine<'a> {
         if count != len {
             self.h.viol("C05", "len-vs-iteration", format!("len() = {} but iter() yields {} entries", len, count));
         }
+        if count != s.model.len() {
+            self.iter9("count", format!("iter() yields {} entries; the history left {} stored", count, s.model.len()));
+        }
         for e in &s.model.ents {
             if !seen.iter().any(|x| x.0 == e.class) {
                 self.h.viol("C01", "missing-key", format!("model holds class {} but iteration does not yield it", e.class));
+                self.iter9("omitted", format!("iter() does not yield class {} which the history left stored", e.class));
             }
         }
         s.order.clear();
